@@ -22,6 +22,48 @@ static inline int kind_of(const std::string &s) {
     for (int i = 0; i < NKINDS; ++i) if (s == kKindNames[i]) return i;
     return -1;
 }
+// the documented fields of the six handle types, read through the type they belong to (the types happen to share a
+// layout today; nothing promises that)
+static inline const void *handle_vtable(int kind, const void *obj) {
+    switch (kind) {
+    case C128: return ((const Skinny128CTR_t *)obj)->vtable;
+    case C64: return ((const Skinny64CTR_t *)obj)->vtable;
+    case CM: return ((const MantisCTR_t *)obj)->vtable;
+    case P128: return ((const Skinny128ParallelECB_t *)obj)->vtable;
+    case P64: return ((const Skinny64ParallelECB_t *)obj)->vtable;
+    case PM: return ((const MantisParallelECB_t *)obj)->vtable;
+    }
+    return nullptr;
+}
+static inline void *handle_ctx(int kind, const void *obj) {
+    switch (kind) {
+    case C128: return ((const Skinny128CTR_t *)obj)->ctx;
+    case C64: return ((const Skinny64CTR_t *)obj)->ctx;
+    case CM: return ((const MantisCTR_t *)obj)->ctx;
+    case P128: return ((const Skinny128ParallelECB_t *)obj)->ctx;
+    case P64: return ((const Skinny64ParallelECB_t *)obj)->ctx;
+    case PM: return ((const MantisParallelECB_t *)obj)->ctx;
+    }
+    return nullptr;
+}
+static inline size_t handle_parallel_size(int kind, const void *obj) {
+    switch (kind) {
+    case P128: return ((const Skinny128ParallelECB_t *)obj)->parallel_size;
+    case P64: return ((const Skinny64ParallelECB_t *)obj)->parallel_size;
+    case PM: return ((const MantisParallelECB_t *)obj)->parallel_size;
+    }
+    return 0;
+}
+static inline void handle_plant(int kind, void *obj, const void *vt, void *ctx) {
+    switch (kind) {
+    case C128: ((Skinny128CTR_t *)obj)->vtable = vt; ((Skinny128CTR_t *)obj)->ctx = ctx; break;
+    case C64: ((Skinny64CTR_t *)obj)->vtable = vt; ((Skinny64CTR_t *)obj)->ctx = ctx; break;
+    case CM: ((MantisCTR_t *)obj)->vtable = vt; ((MantisCTR_t *)obj)->ctx = ctx; break;
+    case P128: ((Skinny128ParallelECB_t *)obj)->vtable = vt; ((Skinny128ParallelECB_t *)obj)->ctx = ctx; break;
+    case P64: ((Skinny64ParallelECB_t *)obj)->vtable = vt; ((Skinny64ParallelECB_t *)obj)->ctx = ctx; break;
+    case PM: ((MantisParallelECB_t *)obj)->vtable = vt; ((MantisParallelECB_t *)obj)->ctx = ctx; break;
+    }
+}
 static inline int kind_bs(int k) { return (k == K128 || k == T128 || k == C128 || k == P128) ? 16 : 8; }
 static inline bool kind_is_ctr(int k) { return k == C128 || k == C64 || k == CM; }
 static inline bool kind_is_par(int k) { return k == P128 || k == P64 || k == PM; }
@@ -327,13 +369,11 @@ private:
             }
             break;
         case C128: case C64: case CM: {
-            Skinny128CTR_t *c = (Skinny128CTR_t *)s->mem;   // all three CTR handles share the layout
-            r.pub = std::string("v") + (c->vtable ? "1" : "0") + "c" + (c->ctx ? "1" : "0");
+            r.pub = std::string("v") + (handle_vtable(s->kind, s->mem) ? "1" : "0") + "c" + (handle_ctx(s->kind, s->mem) ? "1" : "0");
             break;
         }
         case P128: case P64: case PM: {
-            Skinny128ParallelECB_t *c = (Skinny128ParallelECB_t *)s->mem;
-            r.pub = std::string("c") + (c->ctx ? "1" : "0") + "p" + std::to_string(c->parallel_size);
+            r.pub = std::string("c") + (handle_ctx(s->kind, s->mem) ? "1" : "0") + "p" + std::to_string(handle_parallel_size(s->kind, s->mem));
             break;
         }
         }
@@ -369,8 +409,7 @@ private:
             s.mem = s.base + ao;
             if (op.geti("plant") && (kind_is_ctr(s.kind) || kind_is_par(s.kind))) {
                 // prior content: a handle whose vtable/ctx fields point at harness-owned canary memory
-                Skinny128CTR_t *h = (Skinny128CTR_t *)s.mem;
-                h->vtable = planted_vtable; h->ctx = planted_ctx;
+                handle_plant(s.kind, s.mem, planted_vtable, planted_ctx);
             }
             if (o.hooks) o.hooks->object(s.kind, s.mem, kind_size(s.kind));
             slots.push_back(s);
@@ -427,9 +466,9 @@ private:
             uint8_t *ip, *outp;
             block_io(op, *in, BS, ip, outp);
             pre_call(op);
-            // for tweaked objects the schedule is the first member
+            // the schedule of a tweaked object is its documented member `ks`, wherever the structure keeps it
             const void *ks = obj;
-            (void)tweaked;
+            if (tweaked) ks = is128 ? (const void *)&((const Skinny128TweakedKey_t *)obj)->ks : (const void *)&((const Skinny64TweakedKey_t *)obj)->ks;
             if (fn == "enc") { if (is128) a.skinny128_ecb_encrypt(outp, ip, (const Skinny128Key_t *)ks); else a.skinny64_ecb_encrypt(outp, ip, (const Skinny64Key_t *)ks); }
             else { if (is128) a.skinny128_ecb_decrypt(outp, ip, (const Skinny128Key_t *)ks); else a.skinny64_ecb_decrypt(outp, ip, (const Skinny64Key_t *)ks); }
             post_call(op, r);
@@ -495,7 +534,7 @@ private:
     }
 
     int ctr_backend(int kind, void *obj) {
-        const void *vt = ((Skinny128CTR_t *)obj)->vtable;
+        const void *vt = handle_vtable(kind, obj);
         if (!vt) return -1;
         if (kind == C128) return vt == a.vt_s128_ctr_vec256 ? 256 : vt == a.vt_s128_ctr_vec128 ? 128 : 0;
         if (kind == C64) return vt == a.vt_s64_ctr_vec128 ? 128 : 0;
@@ -562,9 +601,8 @@ private:
     }
 
     int par_backend(int kind, void *obj) {
-        Skinny128ParallelECB_t *p = (Skinny128ParallelECB_t *)obj;
-        if (!p->vtable) return 0;
-        if (kind == P128) return p->parallel_size == 128 ? 256 : 128;
+        if (!handle_vtable(kind, obj)) return 0;
+        if (kind == P128) return handle_parallel_size(kind, obj) == 128 ? 256 : 128;
         return 128;
     }
 
